@@ -36,6 +36,47 @@ def o6(tier):
     return ob.done(cases=n)
 
 
+@guard
+def o7(tier):
+    """the cached pointer changes only through the canonical comparison"""
+    from mirsym import contracts as C
+    from mirsym.api import Opaque, ev_is, vname, uid_of
+    from props.C02 import app_args
+    from props.memharness import GROUP_FIELDS
+    ob = Ob('O7', 'create_message / process_application_message: the group record they save carries last_message_id / _at / _processed_at exactly as left by '
+                  'Group::update_last_message_if_newer (O2): no direct assignment to the pointer fields, and the update is applied to the record that is saved',
+            pure=C.PURE_MLS, models=C.unsigned_event_models(), inline={'create_mls_message_payload'})
+    idx = {GROUP_FIELDS.index(n): n for n in ('last_message_id', 'last_message_at', 'last_message_processed_at')}
+    total = n = 0
+    for spec, args, key in [('create::create_message', [Opaque('self', '&MDK<Storage>'), Opaque('mls_group_id', '&mdk_storage_traits::GroupId'), Opaque('rumor', 'nostr::UnsignedEvent')], 'send'),
+                            ('application::process_application_message', app_args(), 'receive')]:
+        f = ob.fn('mdk-core', spec)
+        for p in ob.explore(f, args):
+            total += 1
+            if p.kind != 'return' or vname(p.ret) != 'Ok':
+                continue
+            sg = [(i, e) for i, e in enumerate(p.trace) if ev_is(e, 'save_group_record') or (ev_is(e, 'save_group') and not ev_is(e, 'save_group_exporter_secret'))]
+            if not sg:
+                continue
+            n += 1
+            i0, e0 = sg[-1]
+            g = e0.args[1]
+            up = [(i, e) for i, e in enumerate(p.trace[:i0]) if ev_is(e, 'update_last_message_if_newer')]
+            if not ob.require(bool(up), f'O7/{key}/pointer-not-updated', f'{f.short}: a group record is saved without the pointer having gone through update_last_message_if_newer', p):
+                continue
+            over = getattr(g, 'over', {}) or {}
+            direct = sorted(idx[k[1]] for k in over if isinstance(k, tuple) and len(k) == 2 and k[1] in idx)
+            if hasattr(g, 'names') and hasattr(g, 'fields') and not hasattr(g, 'over'):
+                direct = ['record rebuilt field by field']
+            ob.require(not direct, f'O7/{key}/pointer-written-directly', f'{f.short}: {direct} of the saved record are assigned directly, bypassing the newest-first comparison '
+                       '(a message older than the stored head would move the pointer)', p)
+            ob.require(uid_of(ob.eng, p.st, up[-1][1].args[0]).rstrip("'") == uid_of(ob.eng, p.st, g).rstrip("'"), f'O7/{key}/pointer-updated-on-another-record',
+                       f'{f.short}: update_last_message_if_newer is applied to {uid_of(ob.eng, p.st, up[-1][1].args[0])}, the record saved is {uid_of(ob.eng, p.st, g)}', p)
+    ob.require(n >= 2, 'O7/vacuity', f'paths saving a group record: {n}')
+    ob.r.bounds = {'paths': 'all'}
+    return ob.done(cases=total)
+
+
 def run(tier, seed, only=None):
     out = []
     if not only or 'O1' in only:
@@ -60,6 +101,8 @@ def run(tier, seed, only=None):
         out.append(r5)
     if not only or 'O6' in only:
         out.append(o6(tier))
+    if not only or 'O7' in only:
+        out.append(o7(tier))
     if not only or 'O3' in only:
         from props import memobs
         out.append(memobs.messages_listing(tier, 'O3', 'O3'))
